@@ -54,26 +54,132 @@ impl Signature {
 #[verifier::external_body]
 pub fn clone_sig(s: &Signature) -> (r: Signature) ensures r == *s { unimplemented!() }   // derived Clone (A)
 
-// SignatureTable: FxHashMap entry API + iterator adapters (.iter().map().find()) — contracts ASSUMED (A) and
-// validated by the `signature_table` twin (weak-hash collisions, repeated blocks).
+// ---- SignatureTable (src/signature.rs): the weak-hash index UNDER CONTRACT (representation invariant `wf`) ----
+// rustc_hash cannot be linked: in-file shim with the standard map semantics (A). Two R5 site shims carry the std
+// semantics of `entry(k).or_default().push(i)` and of `.iter().map(|&i| &B[i]).find(|sig| sig.strong_hash == S)`.
+pub mod rustc_hash { pub struct FxBuildHasher; }
 #[verifier::external_body]
-pub struct SignatureTable { _p: () }
+#[verifier::reject_recursive_types(K)]
+#[verifier::reject_recursive_types(V)]
+pub struct FxHashMap<K, V> { _p: core::marker::PhantomData<(K, V)> }
+impl<V> FxHashMap<u32, V> {
+    pub uninterp spec fn view(&self) -> Map<u32, V>;
+    #[verifier::external_body]
+    pub fn with_capacity_and_hasher(capacity: usize, hasher: rustc_hash::FxBuildHasher) -> (r: Self)
+        ensures r@ == Map::<u32, V>::empty() { unimplemented!() }
+    #[verifier::external_body]
+    pub fn get(&self, k: &u32) -> (r: Option<&V>)
+        ensures (r is Some) == self@.dom().contains(*k), r is Some ==> *r->Some_0 == self@[*k] { unimplemented!() }
+    #[verifier::external_body]
+    pub fn contains_key(&self, k: &u32) -> (r: bool) ensures r == self@.dom().contains(*k) { unimplemented!() }
+}
+#[verifier::external_body]
+pub fn fx_entry_or_default_push(m: &mut FxHashMap<u32, Vec<usize>>, k: u32, i: usize)
+    ensures final(m)@.dom() == old(m)@.dom().insert(k),
+        forall|w: u32| w != k && old(m)@.dom().contains(w) ==> #[trigger] final(m)@[w] == old(m)@[w],
+        final(m)@[k]@ == (if old(m)@.dom().contains(k) { old(m)@[k]@ } else { Seq::<usize>::empty() }).push(i),
+{ unimplemented!() }
+// the first candidate (in list order) whose block carries strong hash `s`; the closure indexes `b`, so a stale index panics
+#[verifier::external_body]
+pub fn first_strong<'a>(c: &Vec<usize>, b: &'a Vec<BlockSignature>, s: &StrongHash) -> (r: Option<&'a BlockSignature>)
+    requires forall|k: int| 0 <= k < c@.len() ==> (#[trigger] c@[k]) < b@.len(),
+    ensures
+        r is Some ==> exists|k: int| 0 <= k < c@.len() && *r->Some_0 == b@[(#[trigger] c@[k]) as int] && b@[c@[k] as int].strong_hash == *s,
+        r is None ==> forall|k: int| 0 <= k < c@.len() ==> b@[(#[trigger] c@[k]) as int].strong_hash != *s,
+{ unimplemented!() }
+
+pub open spec fn listed(idx: Map<u32, Vec<usize>>, w: u32, j: int) -> bool {
+    idx.dom().contains(w) && exists|k: int| 0 <= k < idx[w]@.len() && #[trigger] idx[w]@[k] == j
+}
+// every bucket entry points at a block (< bound) with that weak hash; no bucket is empty; every block below `upto` is listed
+pub open spec fn index_ok(idx: Map<u32, Vec<usize>>, bl: Seq<BlockSignature>, upto: int) -> bool {
+    &&& forall|w: u32, k: int| idx.dom().contains(w) && 0 <= k < idx[w]@.len() ==> (#[trigger] idx[w]@[k]) < upto && bl[idx[w]@[k] as int].weak_hash == w
+    &&& forall|w: u32| #[trigger] idx.dom().contains(w) ==> idx[w]@.len() > 0
+    &&& forall|j: int| 0 <= j < upto ==> listed(idx, (#[trigger] bl[j]).weak_hash, j)
+}
+//@item file=src/signature.rs kind=struct name=SignatureTable
 impl SignatureTable {
-    pub uninterp spec fn sig(&self) -> Signature;
-    #[verifier::external_body]
-    pub fn from_signature(signature: Signature) -> (r: Self) ensures r.sig() == signature { unimplemented!() }
-    #[verifier::external_body]
-    pub fn is_empty(&self) -> (r: bool) ensures r == (self.sig().blocks@.len() == 0) { unimplemented!() }
-    #[verifier::external_body]
-    pub fn has_weak_match(&self, weak: u32) -> (r: bool)
-        ensures r == (exists|j: int| 0 <= j < self.sig().blocks@.len() && (#[trigger] self.sig().blocks@[j]).weak_hash == weak)
-    { unimplemented!() }
-    #[verifier::external_body]
-    pub fn find_match(&self, weak: u32, data: &[u8]) -> (r: Option<&BlockSignature>)
-        ensures
+    pub closed spec fn sig(&self) -> Signature { self.signature }
+    // representation invariant: weak_index[w] lists exactly the indices of the blocks whose weak hash is w
+    pub closed spec fn wf(&self) -> bool { index_ok(self.weak_index@, self.signature.blocks@, self.signature.blocks@.len() as int) }
+//@extract file=src/signature.rs impl="SignatureTable" fn=from_signature
+//@ret r
+//@ensures
+        r.sig() == signature, r.wf(),
+//@replace /weak_index\s*\.entry\(\s*block\.weak_hash\s*\)\s*\.or_default\(\)\s*\.push\(\s*i\s*\)/ => fx_entry_or_default_push(&mut weak_index, block.weak_hash, i)
+//@loop 0 invariant
+                __k0 <= signature.blocks@.len(),
+                index_ok(weak_index@, signature.blocks@, __k0 as int),
+//@loop 0 decreases
+                signature.blocks@.len() - __k0
+//@at loop 0 entry
+            let ghost idx0 = weak_index@;
+            let ghost bl = signature.blocks@;
+//@at loop 0 end
+            proof {
+                let idx1 = weak_index@; let wk = bl[i as int].weak_hash;
+                assert forall|w: u32, k: int| idx1.dom().contains(w) && 0 <= k < idx1[w]@.len() implies (#[trigger] idx1[w]@[k]) < i + 1 && bl[idx1[w]@[k] as int].weak_hash == w by {
+                    if w == wk {
+                        if idx0.dom().contains(wk) && k < idx0[wk]@.len() { assert(idx0[wk]@[k] < i); }
+                    } else { assert(idx1[w] == idx0[w]); assert(idx0[w]@[k] < i); }
+                }
+                assert forall|w: u32| #[trigger] idx1.dom().contains(w) implies idx1[w]@.len() > 0 by {
+                    if w != wk { assert(idx0.dom().contains(w)); assert(idx1[w] == idx0[w]); }
+                }
+                assert forall|j: int| 0 <= j < i + 1 implies listed(idx1, (#[trigger] bl[j]).weak_hash, j) by {
+                    let wj = bl[j].weak_hash;
+                    if j < i {
+                        assert(listed(idx0, wj, j));
+                        let k = choose|k: int| 0 <= k < idx0[wj]@.len() && #[trigger] idx0[wj]@[k] == j;
+                        if wj != wk { assert(idx1[wj] == idx0[wj]); }
+                        assert(idx1[wj]@[k] == j);
+                    } else {
+                        let k = if idx0.dom().contains(wk) { idx0[wk]@.len() as int } else { 0 };
+                        assert(idx1[wk]@[k] == j);
+                    }
+                }
+            }
+//@end
+//@extract file=src/signature.rs impl="SignatureTable" fn=find_match
+//@ret r
+//@requires
+        self.wf(),
+//@ensures
             r is Some ==> exists|j: int| 0 <= j < self.sig().blocks@.len() && *r->Some_0 == (#[trigger] self.sig().blocks@[j])
                 && self.sig().blocks@[j].weak_hash == weak && self.sig().blocks@[j].strong_hash.bytes() == H(data@),
             r is None ==> forall|j: int| 0 <= j < self.sig().blocks@.len() ==>
                 !((#[trigger] self.sig().blocks@[j]).weak_hash == weak && self.sig().blocks@[j].strong_hash.bytes() == H(data@)),
-    { unimplemented!() }
+//@replace /candidates\s*\.iter\(\)\s*\.map\(\|&i\| &self\.signature\.blocks\[i\]\)\s*\.find\(\|sig\| sig\.strong_hash == strong\)/ => first_strong(candidates, &self.signature.blocks, &strong)
+//@at end
+        proof {
+            let bl = self.signature.blocks@;
+            assert(*candidates == self.weak_index@[weak]);
+            assert(self.sig().blocks@ == bl);
+            assert forall|k: int| 0 <= k < candidates@.len() implies (#[trigger] candidates@[k]) < bl.len() && bl[candidates@[k] as int].weak_hash == weak by {
+                assert(self.weak_index@[weak]@[k] == candidates@[k]);
+            }
+            assert forall|j: int| 0 <= j < bl.len() && (#[trigger] bl[j]).strong_hash.bytes() == strong.bytes() implies bl[j].strong_hash == strong by {
+                StrongHash::lemma_bytes_inj(bl[j].strong_hash, strong);
+            }
+        }
+//@end
+//@extract file=src/signature.rs impl="SignatureTable" fn=has_weak_match
+//@ret r
+//@requires
+        self.wf(),
+//@ensures
+        r == (exists|j: int| 0 <= j < self.sig().blocks@.len() && (#[trigger] self.sig().blocks@[j]).weak_hash == weak),
+//@at end
+        proof {
+            if self.weak_index@.dom().contains(weak) {
+                let j = self.weak_index@[weak]@[0];
+                assert(self.signature.blocks@[j as int].weak_hash == weak);
+            }
+        }
+//@end
+//@extract file=src/signature.rs impl="SignatureTable" fn=is_empty
+//@ret r
+//@ensures
+        r == (self.sig().blocks@.len() == 0),
+//@end
 }
